@@ -141,9 +141,15 @@ class AvgOverTime(TimeIntegrationAdapter):
             else:
                 dt1_c = min(dt1, self._step)
                 dt2_c = max(self._step, dt2)
-                value = (min(self._step, dt2) - dt1_c) * v_old + (
-                    dt2_c - max(self._step, dt1)
-                ) * v_new
+                w_old = min(self._step, dt2) - dt1_c
+                w_new = dt2_c - max(self._step, dt1)
+                # a value with zero weight must not contribute (0 * nan is nan)
+                if w_new <= 0:
+                    value = w_old * v_old
+                elif w_old <= 0:
+                    value = w_new * v_new
+                else:
+                    value = w_old * v_old + w_new * v_new
 
             value *= time_range.total_seconds() * tools.UNITS.Unit("s")
 
@@ -273,9 +279,15 @@ class SumOverTime(TimeIntegrationAdapter):
             else:
                 dt1_c = min(dt1, self._step)
                 dt2_c = max(self._step, dt2)
-                value = (min(self._step, dt2) - dt1_c) * v_old + (
-                    dt2_c - max(self._step, dt1)
-                ) * v_new
+                w_old = min(self._step, dt2) - dt1_c
+                w_new = dt2_c - max(self._step, dt1)
+                # a value with zero weight must not contribute (0 * nan is nan)
+                if w_new <= 0:
+                    value = w_old * v_old
+                elif w_old <= 0:
+                    value = w_new * v_new
+                else:
+                    value = w_old * v_old + w_new * v_new
 
             if self._per_time:
                 value *= time_range.total_seconds() * tools.UNITS.Unit("s")
